@@ -231,7 +231,10 @@ def make_twins(spec, cases, seed, traces=None):
             else:
                 out.append(permute_case(c, traces[idx], rng))
         elif kind == "encode":
-            out.append((encode_case(c, rng), []))
+            if c.get("fixed_twin"):
+                out.append((copy.deepcopy(c["fixed_twin"]["case"]), []))
+            else:
+                out.append((encode_case(c, rng), []))
     return out
 
 
